@@ -28,6 +28,7 @@ func init() {
 		Rules: []*core.Rule{
 			{ID: "C02.R1", Title: "decoder.compile has a clause returning a compile function for every kind encoding/json decodes, none for Complex/Chan/UnsafePointer, and falls through to newInvalidDecoder", Covers: "error exactly when encoding/json errors on the destination type", Min: 25, Run: c02r1},
 			{ID: "C02.R2", Title: "for every decoder type constructed only for nilable kinds (derived from compile), the null path of Decode and DecodeStream (in the method or the helper that receives p) stores through the destination pointer", Covers: "null handling agrees with encoding/json for pointers, maps, slices, interfaces", Min: 8, Run: c02r2},
+			{ID: "C04.R4", Title: "only the nil token (null) skips the store; an empty token is stored (shared with C04)", Covers: "nil versus empty agrees with encoding/json", Min: 6, Run: c04r4},
 			{ID: "C02.R3", Title: "numDecoder and Token choose the number representation by s.UseNumber, the empty-interface stream decoder decodes numbers only through numDecoder, and the unknown-key branch of structDecoder.DecodeStream tests s.DisallowUnknownFields before skipValue", Covers: "UseNumber and DisallowUnknownFields keep the agreement", Min: 4, Run: c02r3},
 			{ID: "C02.R4", Title: "in every decoder function that works in an array taken from a sync.Pool, each element slot handed to the element decoder is cleared under a guard equivalent to `callerLen <= idx` (so every slot the caller's elements do not cover is zero, whatever an earlier call left in the array)", Covers: "the result into a zero or shorter destination does not depend on earlier calls (reused pointers and slices)", Min: 2, Run: c02r4},
 			{ID: "C05.R2", Title: "number tokens are checked against the JSON number grammar before they are converted (shared with C05)", Covers: "Unmarshal returns an error exactly when encoding/json does (01, 1., -.5 are syntax errors)", Min: 8, Run: c05r2},
@@ -58,6 +59,7 @@ func init() {
 			{ID: "C04.R1", Title: "every escape the four string appenders can emit is accepted, and decoded to the originating byte, by every escape-letter dispatch of the decoder and by unescapeMap", Covers: "strings survive Marshal→Unmarshal", Min: 30, Run: c04r1},
 			{ID: "C04.R2", Title: "intLELookup/intBELookup hold the two digits of their index, pow10i64/pow10u64 hold 10^i, hexToInt inverts hex", Covers: "integers and \\u escapes survive the round trip", Min: 250, Run: c04r2},
 			{ID: "C17.R4", Title: "decodeRuneInString returns lineSepState/paragraphSepState only under s[0]==0xE2, s[1]==0x80 and s[2]==0xA8/0xA9", Covers: "only U+2028/U+2029 are rewritten as \\u2028/\\u2029; every other character keeps its bytes", Min: 2, Run: c17r4},
+			{ID: "C04.R4", Title: "every Decode/DecodeStream method that leaves early without a store tests its scanned token against nil (the null token), never by length: the empty token of \"\" is stored", Covers: "empty versus nil containers survive the round trip ([]byte{} is written as \"\" and read back non-nil)", Min: 6, Run: c04r4},
 			{ID: "C04.R3", Title: "every base64 call in encoder and decoder uses the same Encoding object", Covers: "[]byte survives the round trip", Min: 2, Run: c04r3},
 		},
 	})
@@ -85,6 +87,7 @@ func init() {
 			{ID: "C06.R3b", Title: "a reflect.Value that can be the zero Value for ordinary data (x.Elem(), reflect.ValueOf(<interface>), MapIndex) is never used, locally or in the module function it is passed to (all implementations for interface calls), as receiver of a method that panics on the zero Value unless an IsValid test protects the use", Covers: "Path.Get and the assignment helpers return an error, not a panic, for nil pointers / nil interfaces inside the source value", Min: 10, Run: c06r3b},
 			{ID: "C15.R6", Title: "in the four bitmap key decoders every path from one bitmap row read to the next passes the `curBit == 0` test whose true branch exits", Covers: "a key longer than every field name (also through multi-byte \\u escapes) ends the match instead of indexing past the bitmap", Min: 8, Run: c15r6},
 			{ID: "C06.R5", Title: "every read at <cursor>+k (index, slice bound, char(p, cursor+k)), k >= 1, in the decoders and in compact.go/indent.go is protected by a dominating `cursor+j >= len` exit or an enclosing/short-circuit `cursor+j < len` test with j >= k, by readAtLeast, or by the NUL-sentinel idiom (the preceding byte was matched against a non-NUL constant)", Covers: "truncated literals and escapes give an error instead of an out-of-range panic or a stray read", Min: 25, Run: c06r5},
+			{ID: "C06.R7", Title: "every write at a moving index into a locally made []byte inside a loop is preceded, in that loop, by a comparison of the index with len/cap of the buffer whose branch grows the buffer or leaves", Covers: "never panics (no write past a scratch buffer when the output expands)", Min: 1, Run: c06r7},
 			{ID: "C06.R6", Title: "no variable is type-asserted in the panicking single-value form to two different interface types within one decoder/encoder function", Covers: "UnmarshalContext/Unmarshal never panic on a destination that implements only one of the unmarshaler interfaces", Min: 2, Run: c06r6},
 			{ID: "C06.R4", Title: "no ssa.Panic instruction of the module (outside init) is in a function CHA-reachable from the decoding/utility entry points", Covers: "no explicit panic on any input", Min: 5, Run: c06r4},
 		},
@@ -204,6 +207,7 @@ func init() {
 			{ID: "C12.R1", Title: "in unmarshal/unmarshalContext/unmarshalNoEscape/extractFromPath the data parameter (and slices of it) is used only by len() and as the source of copy()", Covers: "Unmarshal never modifies or retains the caller's input bytes", Min: 12, Run: c12r1},
 			{ID: "C12.R2", Title: "every non-nil []byte returned by marshal/marshalContext/marshalNoEscape/marshalIndent is a MakeSlice filled by copy, and the copy precedes ReleaseRuntimeContext", Covers: "returned encodings are exclusively the caller's", Min: 8, Run: c12r2},
 			{ID: "C12.R3", Title: "every []byte passed to an UnmarshalJSON/UnmarshalText callback in a function with a *Stream parameter originates only from make/alloc in that call", Covers: "bytes handed to callbacks are not overwritten by later reads of the stream", Min: 8, Run: c12r3},
+			{ID: "C12.R5", Title: "every value assigned to Stream.buf is a fresh make, a forward re-slice of the window itself, a fresh copy, or an in-place splice that keeps the window prefix before the token being decoded", Covers: "values decoded earlier from a Decoder are not altered by later Decode calls (zero-copy strings keep their bytes)", Min: 7, Run: c12r5},
 			{ID: "C12.R4", Title: "every operand of unescapeString, traced through callers, originates from RuntimeContext.Buf, Stream.buf or fresh memory; ctx.Buf is only set to a slice made in the same call", Covers: "in-place rewriting never touches caller memory", Min: 5, Run: c12r4},
 		},
 	})
